@@ -2,7 +2,8 @@
 (* C18 model checking: exhaustive exploration of the tree builder under small constants (checks/c18.py writes the cfg):
    InvTreeOK, InvPopulateExact (the __populate_fs model refines the property-level Expect), InvRdumpExact.            *)
 EXTENDS TreeGen
-\* hard-link detection across devices needs two link groups with equal inode numbers on two devices: six nodes, three kinds
-KindSeqLink == <<"dir", "reg", "hard">>
+\* hard-link detection across devices needs two link groups with equal inode numbers on two devices: six nodes; the groups are
+\* regular files or fifos (a type that is not copied through do_write_internal)
+KindSeqLink == <<"dir", "reg", "fifo", "hard">>
 KindSeqMC == <<"dir", "reg", "lnk", "chr", "blk", "fifo", "sock", "hard">>
 =============================================================================
